@@ -282,6 +282,19 @@ theorem view_out {β : Type} (n : Net β) (a i : Nat) :
     · simp [ha, hi, List.getElem?_eq_none]
   · simp [ha, List.getElem?_eq_none]
 
+theorem view_inn {β : Type} (n : Net β) (a j : Nat) :
+    n.view.inn a j = if n.directed = true ∧ a < n.nL ∧ j < n.nV then n.inn a j else [] := by
+  unfold Net.view
+  simp only
+  by_cases hd : n.directed = true
+  · simp only [hd, ↓reduceIte, true_and, Array.getD_eq_getD_getElem?, List.getElem?_toArray, List.getElem?_map]
+    by_cases ha : a < n.nL
+    · by_cases hj : j < n.nV
+      · simp [ha, hj, List.getElem?_range]
+      · simp [ha, hj, List.getElem?_eq_none]
+    · simp [ha, List.getElem?_eq_none]
+  · simp [hd]
+
 theorem view_out_lt {β : Type} (n : Net β) (N : Nat) (h : ∀ r ∈ n.recs, r.src < N ∧ r.dst < N) (a i : Nat) :
     ∀ j ∈ n.view.out a i, j < N := by
   rw [view_out]
